@@ -23,17 +23,17 @@ import (
 )
 
 type DiskLog struct {
-	Dir     string
-	Name    string
-	Key     *ecdsa.PrivateKey
-	WKey    *mldsa.PrivateKey
-	Cfg     *ctlog.Config
-	Log     *ctlog.Log
-	W       *World
-	Truth   []*RefEntry
-	Backend ctlog.Backend
+	Dir      string
+	Name     string
+	Key      *ecdsa.PrivateKey
+	WKey     *mldsa.PrivateKey
+	Cfg      *ctlog.Config
+	Log      *ctlog.Log
+	W        *World
+	Truth    []*RefEntry
+	Backend  ctlog.Backend
 	FailKeys *failKeyBackend
-	Limit   time.Time
+	Limit    time.Time
 }
 
 // failKeyBackend passes everything to the wrapped backend except uploads of
